@@ -5,6 +5,7 @@ import XalanModel.C04.Indent
 import XalanModel.C04.DocReader
 import XalanModel.C04.IndentTextProofs
 import XalanModel.C04.RawMarker
+import XalanModel.C04.Stream
 import Driver.Util
 /-
 xm_c04: replays SAX event scripts on the Lean model of FormatterToXMLUnicode + writers + buffers.
@@ -139,14 +140,14 @@ def deliver (encName : String) (e : Enc) (wchunks : List (List Nat)) : Except St
     let cs := wchunks.filter (· ≠ [])
     .ok (cs.flatten, cs.map List.length)
   | .utf16 =>
-    match streamChunksF XalanModel.Generated.C04.streamBufferSize XalanModel.Generated.C04.bulkFlushStream wchunks with
+    match some (streamRun (StreamCfg.generated true) wchunks) with
     | none => .error "mem"
     | some sc =>
       let cs := sc.filter (· ≠ [])
       let bytes := cs.map fun c => c.flatMap fun u => [u % 256, u / 256 % 256]
       .ok ([0xFF, 0xFE] ++ bytes.flatten, 2 :: bytes.map List.length)
   | .other =>
-    match streamChunksF XalanModel.Generated.C04.streamBufferSize XalanModel.Generated.C04.bulkFlushStream wchunks with
+    match some (streamRun (StreamCfg.generated false) wchunks) with
     | none => .error "mem"
     | some sc =>
       let cs := sc.filter (· ≠ [])
@@ -165,6 +166,26 @@ def deliver (encName : String) (e : Enc) (wchunks : List (List Nat)) : Except St
         | none => .error "transcode"
       else if cs.all (fun c => c.all e.canEnc) then .ok (cs.flatten, cs.map List.length)
       else .error "transcode"
+
+/-- `stream <encoding> <run>...`: `XalanOutputStream` alone (its buffer with the hold-back, then the transcoder, one call
+per chunk): UTF-16 goes through as it is, UTF-8 and UTF-32BE are transcoded chunk by chunk — a chunk that is not
+well-formed UTF-16 by itself is a transcoding error, as with ICU -/
+def streamReply (enc : String) (runs : List String) : String :=
+  match runs.mapM unitsOfHex with
+  | none => "bad"
+  | some ws =>
+    if enc = "UTF-16" then
+      let cs := (streamRun (StreamCfg.generated true) ws).filter (· ≠ [])
+      let bytes := cs.map fun c => c.flatMap fun u => [u % 256, u / 256 % 256]
+      "ok " ++ hexOfBytes ([0xFF, 0xFE] ++ bytes.flatten) ++ " " ++ joinNat (2 :: bytes.map List.length)
+    else if enc = "UTF-8" ∨ enc = "UTF-32BE" then
+      let cs := (streamRun (StreamCfg.generated false) ws).filter (· ≠ [])
+      match cs.mapM Spec.utf16Decode with
+      | none => "err transcode"
+      | some scalars =>
+        let bytes := scalars.map fun ch => if enc = "UTF-8" then ch.flatMap Spec.utf8EncodeOne else ch.flatMap be32
+        "ok " ++ hexOfBytes bytes.flatten ++ " " ++ (if bytes.isEmpty then "-" else joinNat (bytes.map List.length))
+    else "skip"
 
 structure DocOpts where
   decl : Bool := true
@@ -212,6 +233,7 @@ def step (s : Unit) : List String → Unit × String
   | "docfixed" :: "U" :: enc :: ver :: evs => (s, runDoc {} CDataCfg.fixed Fixes.all enc ver evs)
   | ["read", ver, h] => (s, readReply ver h)
   | "filter" :: amount :: evs => (s, filterReply amount evs)
+  | "stream" :: enc :: runs => (s, streamReply enc runs)
   | ["repairc", d] => (s, match unitsOfHex d with | some u => hexOfUnits (repairComment u) | none => "bad")
   | ["repairp", d] => (s, match unitsOfHex d with | some u => hexOfUnits (repairPI u) | none => "bad")
   | "doc" :: _ :: _ => (s, "skip")
